@@ -511,6 +511,16 @@ class Interp:
             st = self.rule_stubs.get(p)
             if st is not None:
                 return st(self, args, fn, expr)
+        if fn.get("ctor"):
+            c = fn["ctor"]
+            return Adt(c["adt"], c["variant"], {str(i): a for i, a in enumerate(args)})
+        vk = fn.get("via_from_key")
+        if vk and vk in self.F.bodies:
+            item = self.F.items[vk]
+            st = self.rule_stubs.get(item.qname)
+            if st is not None:
+                return st(self, args, fn, expr)
+            return self.call_item(item, args)
         item = self.dispatch(fn, args)
         if item is not None:
             st = self.rule_stubs.get(item.qname)
@@ -840,6 +850,8 @@ class Frame:
 
     def e_Scope(self, e, _outer=None):
         inner = self.exprs[e["value"]]
+        while inner["k"] in ("NeverToAny", "Use"):
+            inner = self.exprs[inner["source"]]
         if inner["k"] == "Loop":
             return self.e_Loop(inner, e["scope"])
         return self.eval(e["value"])
